@@ -67,9 +67,9 @@ func ExtractTypeNameMap(v interface{}) (map[string]reflect.Type, map[string]stri
 		typMap[name] = typ
 		nameMap[name] = name
 
-		if n, ok := codecNamableOf(v); ok {
-			nameMap[name] = n.HessianCodecName()
-			typMap[n.HessianCodecName()] = typ
+		if codecName, ok := codecNameOf(v); ok {
+			nameMap[name] = codecName
+			typMap[codecName] = typ
 		}
 		return true
 	})
@@ -97,12 +97,12 @@ func ExtractTypeNameMap(v interface{}) (map[string]reflect.Type, map[string]stri
 	return typMap, nameMap
 }
 
-// codecNamableOf returns v as a CodecNamable when its type declares a custom name itself: with a value
-// receiver or a pointer receiver, but not a name that is merely promoted from an embedded struct
-// (that name belongs to the embedded class; two classes cannot share a wire name)
-func codecNamableOf(v reflect.Value) (CodecNamable, bool) {
-	if !v.CanInterface() {
-		return nil, false
+// codecNameOf returns the custom class name that the type of v declares itself: with a value receiver or a
+// pointer receiver, but not a name that is merely promoted from an embedded struct (that name belongs to the
+// embedded class; two classes cannot share a wire name)
+func codecNameOf(v reflect.Value) (string, bool) {
+	if !v.CanInterface() || (v.Kind() == reflect.Ptr && v.IsNil()) {
+		return "", false
 	}
 	n, ok := v.Interface().(CodecNamable)
 	if !ok && v.Kind() != reflect.Ptr && v.Kind() != reflect.Interface {
@@ -112,19 +112,33 @@ func codecNamableOf(v reflect.Value) (CodecNamable, bool) {
 		n, ok = pv.Interface().(CodecNamable)
 	}
 	if !ok {
-		return nil, false
+		return "", false
+	}
+	name, ok := callCodecName(n)
+	if !ok {
+		return "", false
 	}
 	if v.Kind() == reflect.Struct {
 		for i := 0; i < v.NumField(); i++ {
-			if !v.Type().Field(i).Anonymous || !v.Field(i).CanInterface() {
+			if !v.Type().Field(i).Anonymous {
 				continue
 			}
-			if en, ok := codecNamableOf(v.Field(i)); ok && en.HessianCodecName() == n.HessianCodecName() {
-				return nil, false
+			if en, ok := codecNameOf(v.Field(i)); ok && en == name {
+				return "", false
 			}
 		}
 	}
-	return n, true
+	return name, true
+}
+
+// callCodecName asks n for its name; a method that is promoted from an embedded nil pointer panics when it is called
+func callCodecName(n CodecNamable) (name string, ok bool) {
+	defer func() {
+		if recover() != nil {
+			name, ok = "", false
+		}
+	}()
+	return n.HessianCodecName(), true
 }
 
 // remove pointer '*' and right bracket ']'
